@@ -243,8 +243,9 @@ def f_derivcall(a):
     """cfg.derivative(a1)...derivative(ak)(y): recorded as the weight of pre.y under the original grammar."""
     g = build(a["G"], a["sr"], a.get("names", "str"))
     d = g
-    for x in ustr(a["pre"]):
-        d = d.derivative(x)
+    idx = a.get("idx") or [None] * len(a["pre"])
+    for x, i in zip(ustr(a["pre"]), idx):
+        d = d.derivative(x) if i is None else d.derivative(x, i=i)
     v = d(ustr(a["y"]))
     return {"op": "parse", "sr": srmodel(a["sr"]), "G": a["G"], "s": a["pre"] + a["y"], "res": enc_w(g.R, coerce(g.R, v))}
 
@@ -269,8 +270,9 @@ def f_derivative(a):
     g = build(a["G"], a["sr"], a.get("names", "str"), a.get("prelude"), a.get("late", 0))   # here "pre" is the token prefix
     pre = ustr(a["pre"])
     d = g
-    for x in pre:
-        d = d.derivative(x)
+    idx = a.get("idx") or [None] * len(pre)           # the optional index argument that keeps slash symbols apart
+    for x, i in zip(pre, idx):
+        d = d.derivative(x) if i is None else d.derivative(x, i=i)
     out, _ = cfg_proj(d)
     return {"op": "derivative", "sr": srmodel(a["sr"]), "in": a["G"], "out": out, "pre": a["pre"],
             "sigma": a["G"]["V"], "L": a["L"]}
